@@ -75,23 +75,66 @@ def sealBody {κ : Type} [DecidableEq κ] (mustSeal : κ → Bool) (s : SealOut 
   if mustSeal k then { closed := s.closed.set k true, failed := s.failed ++ [k], sealed := s.sealed ++ [k] } else s
 
 /-! ### CheckTx / simulation must not touch what DeliverTx and EndBlock read (second half of C08)
- The oracle keeps a process-global cache `cs`; a handler executed on the check state (tx simulation,
- `ctx.IsCheckTx() = true`) that calls `cs.AddCache` changes what the next EndBlock commits. -/
+ The oracle keeps process-global in-memory state next to the store: the cache `cs` (pending price
+ messages, params with an `update` flag) that x/oracle/module.go: EndBlock commits, and the slice
+ `updatedFeederIDs` that only feeds an EndBlock *event*. A message handler also runs on the check
+ state (tx simulation / gas estimation, `ctx.IsCheckTx() = true`); whatever it then leaves in `cs`
+ would be committed by this node's next EndBlock although no block contained the tx. -/
 structure Node where
-  store : Int          -- digest of the persisted oracle params history
-  cacheParams : Int    -- params held by the in-memory cache
-  cacheDirty : Bool    -- cacheParams.update
+  store : Int                 -- digest of the persisted oracle history (recent params / recent msgs)
+  cacheParams : Int           -- cs.params.params
+  cacheDirty : Bool           -- cs.params.update
+  cacheMsgs : List (Nat × Int) -- cs.msg: (feederID, item)
+  updatedFeeders : List Nat   -- package variable updatedFeederIDs (read only to emit an event)
+deriving DecidableEq, Repr
 
-/-- x/oracle/keeper/msg_server_update_params.go: UpdateParams as it is: AddCache regardless of mode -/
-def updateParamsHandler (_isCheckTx : Bool) (p : Int) (n : Node) : Node :=
+/-- what reaches consensus state at the next EndBlock, and what stays in `cs` afterwards -/
+def Node.consensusView (n : Node) : Int × Int × Bool × List (Nat × Int) :=
+  (n.store, n.cacheParams, n.cacheDirty, n.cacheMsgs)
+
+/-- x/oracle/keeper/msg_server_update_params.go: UpdateParams (after SetParams on the tx's own store
+branch): `if !ctx.IsCheckTx() { GetAggregatorContext; cs.AddCache(ItemP(p)) }` -/
+def updateParamsHandler (isCheckTx : Bool) (p : Int) (n : Node) : Node :=
+  if !isCheckTx then { n with cacheParams := p, cacheDirty := true } else n
+
+/-- x/oracle/keeper/params.go: RegisterNewTokenAndSetTokenFeeder (both return paths):
+`if !ctx.IsCheckTx() { …; cs.AddCache(ItemP(p)) }` -/
+def registerTokenHandler (isCheckTx : Bool) (p : Int) (n : Node) : Node :=
+  if !isCheckTx then { n with cacheParams := p, cacheDirty := true } else n
+
+/-- x/oracle/keeper/msg_server_create_price.go: CreatePrice, the part after agc.NewCreatePrice.
+`final` = the round reached consensus (newItem != nil): `if !IsCheckTx { cs.RemoveCache }`, then
+`AppendUpdatedFeederIDs` (not guarded); otherwise `else if !IsCheckTx { cs.AddCache(item) }`. -/
+def createPriceHandler (isCheckTx : Bool) (final : Bool) (feeder : Nat) (item : Int) (n : Node) : Node :=
+  if final then
+    let n1 := if !isCheckTx then { n with cacheMsgs := n.cacheMsgs.filter (fun m => m.1 != feeder) } else n
+    { n1 with updatedFeeders := n1.updatedFeeders ++ [feeder] }
+  else if !isCheckTx then { n with cacheMsgs := n.cacheMsgs ++ [(feeder, item)] } else n
+
+/-- the pre-fix UpdateParams (AddCache regardless of the mode); kept to show that the guard is what
+the theorem rests on -/
+def updateParamsUnguarded (_isCheckTx : Bool) (p : Int) (n : Node) : Node :=
   { n with cacheParams := p, cacheDirty := true }
 
-/-- the guarded variant used by CreatePrice / RegisterNewTokenAndSetTokenFeeder (`if !ctx.IsCheckTx()`) -/
-def updateParamsGuarded (isCheckTx : Bool) (p : Int) (n : Node) : Node :=
-  if isCheckTx then n else { n with cacheParams := p, cacheDirty := true }
+def digestMsgs (acc : Int) (ms : List (Nat × Int)) : Int := ms.foldl (fun a m => a * 31 + m.1 + m.2) acc
 
-/-- x/oracle/module.go: EndBlock → cs.CommitCache: a dirty cache is written to the store -/
+/-- x/oracle/module.go: EndBlock → cs.CommitCache (pending msgs, then dirty params are written to the
+store), the updatedFeederIDs event, ResetUpdatedFeederIDs -/
 def endBlock (n : Node) : Node :=
-  if n.cacheDirty then { n with store := n.store * 31 + n.cacheParams, cacheDirty := false } else n
+  let s1 := if n.cacheMsgs.isEmpty then n.store else digestMsgs n.store n.cacheMsgs
+  let s2 := if n.cacheDirty then s1 * 31 + n.cacheParams else s1
+  { n with store := s2, cacheDirty := false, cacheMsgs := [], updatedFeeders := [] }
+
+/-- one handler invocation on the check state -/
+inductive CheckCall where
+  | updateParams (p : Int)
+  | registerToken (p : Int)
+  | createPrice (final : Bool) (feeder : Nat) (item : Int)
+
+def CheckCall.run (c : CheckCall) (isCheckTx : Bool) (n : Node) : Node :=
+  match c with
+  | .updateParams p => updateParamsHandler isCheckTx p n
+  | .registerToken p => registerTokenHandler isCheckTx p n
+  | .createPrice f fd it => createPriceHandler isCheckTx f fd it n
 
 end ExoVerif.Det
